@@ -144,6 +144,10 @@ CALL = {
     "copy": lambda x, r, ev: x.copy(),
     "reverse": lambda x, r, ev: x.reverse(),
     "sample": _sample,
+    # method chains: the intermediate list is not kept by anybody (it is freed before the chain's result is used),
+    # yet the receiver stays "a list from which the result was obtained"
+    "chain_filter_sort": lambda x, r, ev: x.filter(lambda it: True).sort(k=-1),
+    "chain_slice_reverse": lambda x, r, ev: x[0:].reverse(),
     "semi_join": lambda x, r, ev: x.semi_join(r, "k"),
     "anti_join": lambda x, r, ev: x.anti_join(r, "k"),
     # in-place (statement: modify, modify_if, rename, select, unselect, fill_missing_keys, inner_join, left_join)
@@ -163,11 +167,13 @@ CALL = {
     "pluck": lambda x, r, ev: x.pluck("k"),
     "to_string": lambda x, r, ev: x.to_string(),
 }
-SIMPLE_D = ("filter_fn", "filter_kv", "sort", "unique", "head", "tail", "slice", "copy", "reverse")
+SIMPLE_D = ("filter_fn", "filter_kv", "sort", "unique", "head", "tail", "slice", "copy", "reverse",
+            "chain_filter_sort", "chain_slice_reverse")
 SIMPLE_E = ("modify", "modify_if", "modify_if_nested", "rename", "select", "unselect", "fill", "fill_kv")
 USES = ("pluck", "to_string")
 # which method of the statement each op instantiates (for the reference model and reports)
 METHOD = {"filter_fn": "filter", "filter_kv": "filter", "modify_if_nested": "modify_if",
+          "chain_filter_sort": "sort", "chain_slice_reverse": "reverse",
           "fill": "fill_missing_keys", "fill_kv": "fill_missing_keys"}
 for _op in CALL:
     METHOD.setdefault(_op, _op)
@@ -178,7 +184,8 @@ assert all(METHOD[o] in ref.IN_PLACE for o in SIMPLE_E + ("inner_join", "left_jo
 SOURCE = {
     "filter_fn": "{x}.filter(lambda it: it['k'] == 1)", "filter_kv": "{x}.filter(k=2)", "sort": "{x}.sort(k=-1)",
     "unique": "{x}.unique('k')", "head": "{x}.head(1)", "tail": "{x}.tail(1)", "slice": "{x}[1:]",
-    "copy": "{x}.copy()", "reverse": "{x}.reverse()", "sample": "{x}.sample({n})  # random.sample answers {answer}",
+    "copy": "{x}.copy()", "reverse": "{x}.reverse()",
+    "chain_filter_sort": "{x}.filter(lambda it: True).sort(k=-1)", "chain_slice_reverse": "{x}[0:].reverse()", "sample": "{x}.sample({n})  # random.sample answers {answer}",
     "semi_join": "{x}.semi_join({r}, 'k')", "anti_join": "{x}.anti_join({r}, 'k')",
     "modify": "{x}.modify(a=lambda it: 5)", "modify_if": "{x}.modify_if(lambda it: it['k'] == 1, a=lambda it: 6)",
     "modify_if_nested": "{x}.modify_if(lambda it: isinstance(it.get('n'), Box) and len(it['n'].v) < 2, "
